@@ -158,6 +158,9 @@ def run(ctx):
                             else:
                                 terms.append(f'cmp {n} ({mterm(n, tol, mi, dmat(fl(An)), sched, ev)}) {dmat(fl(Qm))} {dmat(fl(T))} {blit(conv)} {iters}')
                                 term_info.append((vname, cls, tol, mi))
+    _A = qx.to_np(qx.rand_int(rng, 3, 3, -3, 3))
+    for vname, f, mterm, tkind in V[::3]:
+        cm.layout_sweep(ctx, qx, 'C10', vname, lambda X, f=f: call(f, X, 3, 1e-10)[:2], _A, {'n': 3, 'variant': vname, 'max_iter': 3})
     res = cm.run_cases(ctx, 'cases_schur', HEADER, terms, 'idb', shard=8, timeout=1500)
     if res is not None:
         ctx.cov['traces_validated_against_impl'] += len(res)
